@@ -100,7 +100,8 @@ Record tables := mkT {
   t_h1_close_after_close : bool;   (* h1.rs: a response ended by the backend's close ends the client connection *)
   t_h1_close_if_request_open : bool; (* h1.rs: a final response to an unfinished request ends the client connection *)
   t_h1_head_gate : bool;           (* h1.rs writable, Server position: nothing of a response is written before its head is complete *)
-  t_park_requires_terminated : bool (* h1.rs end_stream, Connected backend: parked for reuse only if keep-alive AND the response is terminated *)
+  t_park_requires_terminated : bool; (* h1.rs end_stream, Connected backend: parked for reuse only if keep-alive AND the response is terminated *)
+  t_close_waits_behind_interim : bool (* mod.rs dead-backend check + h1.rs readable: a lost backend is not closed while bytes sit unparsed behind an interim the frontend has not written; they are parsed once it has *)
 }.
 
 (** * The hand mirror of the source (what the theorems are proved about) *)
@@ -163,7 +164,7 @@ Definition spec_known_codes : list N := [301; 302; 308; 400; 401; 404; 408; 421;
 Definition spec_tables : tables :=
   mkT spec_esd spec_connect 301 spec_ft spec_bt spec_end_arm
       [ESetState SUnlinked; EArm] [ESetState SUnlinked; EArm] spec_known_codes
-      3 true true true true true true true true true.
+      3 true true true true true true true true true true.
 
 (** * One stream and its frontend connection *)
 
@@ -179,7 +180,10 @@ Definition is_error (p : phase) : bool := match p with PError => true | _ => fal
 Inductive origin := ONone | OBackend | ODefault | OForced.
 
 (** what kind of non-final response the response buffer holds (the H1 parser marks all of them Terminated) *)
-Inductive interim := NoInterim | I100 | I103 | I101.
+(** [I100F] / [I103F]: the interim came in one segment with the complete final response and the
+    backend's FIN, which sit unparsed behind it in the storage (the H1 parser stops after a 1xx) *)
+Inductive interim := NoInterim | I100 | I103 | I101 | I100F | I103F.
+Definition interim_behind (i : interim) : bool := match i with I100F | I103F => true | _ => false end.
 
 Record stream := mkS {
   s_state : sstate;
@@ -217,7 +221,7 @@ Definition valuation (c : conn) (s : stream) (x : cond) : bool :=
   | CFrontConsumed => s_fcons s
   | CKeepAliveBackend => s_ka s
   | CFrontIsH2 => c_h2 c
-  | CBackInterim => match s_interim s with I100 | I103 => true | _ => false end
+  | CBackInterim => match s_interim s with I100 | I103 | I100F | I103F => true | _ => false end
   end.
 
 (** events the life cycle emits (what a client could observe, plus markers) *)
@@ -355,6 +359,7 @@ Inductive input :=
 | IConnect (r : option cause)   (* the pending link is served by Router::connect; None = linked to a backend *)
 | IReqSent                      (* request bytes written to the backend *)
 | IBack1xx (hints : bool)       (* an interim response: 100 Continue, or 103 Early Hints *)
+| IBackBurst (hints : bool)     (* one segment: an interim response, the complete final response, the backend's FIN *)
 | IBack101                      (* 101 Switching Protocols *)
 | IBackPartial                  (* backend bytes parsed, response head incomplete *)
 | IBackHead                     (* response head complete (phase Body) *)
@@ -472,6 +477,22 @@ Definition step (T : tables) (redir : option N) (sc : stream * conn) (i : input)
       else (s, c, [])
     | _, _, _ => (s, c, [])
     end
+  | IBackBurst hints =>
+    (* the read parses the interim and stops; the same pass of Mux::ready then finds the backend
+       dead: it is closed at once (end_stream with only the interim in the buffer) unless the
+       dead-backend check waits for what is still unparsed behind the interim *)
+    match s_state s, s_phase s, s_interim s with
+    | SLinked, PStatusLine, NoInterim =>
+      if s_fcons s then
+        if t_close_waits_behind_interim T then
+          (set_interim (set_back s PTerminated (s_bcons s) true OBackend) (if hints then I103F else I100F),
+           set_arm c true true, [])
+        else
+          back_lost T redir (set_interim (set_back s PTerminated (s_bcons s) true OBackend) (if hints then I103 else I100))
+                    (set_arm c true true)
+      else (s, c, [])
+    | _, _, _ => (s, c, [])
+    end
   | IBack101 =>
     match s_state s, s_phase s, s_interim s with
     | SLinked, PStatusLine, NoInterim =>
@@ -503,7 +524,9 @@ Definition step (T : tables) (redir : option N) (sc : stream * conn) (i : input)
       (set_clean (set_back s PTerminated (s_bcons s) true OBackend) true, set_arm c true true, [])
     | _, _ => (s, c, [])
     end
-  | IBackClose => back_lost T redir s c
+  | IBackClose =>
+    (* the FIN of a burst has been seen already; the connection is closed after the leftover is parsed *)
+    if interim_behind (s_interim s) then (s, c, []) else back_lost T redir s c
   | IBackGarbage =>
     match s_state s with
     | SLinked =>
@@ -523,6 +546,14 @@ Definition step (T : tables) (redir : option N) (sc : stream * conn) (i : input)
       if all then
         match s_interim s with
         | I101 => (set_done s true, set_closed c, [EvUpgrade])
+        | I100F | I103F =>
+          (* the interim is written and cleared, the backend re-armed with a synthetic read: the
+             leftover is parsed (head, close-delimited or complete body, ended by the EOF already
+             seen), then the dead-backend check closes the connection: end_stream on a terminated
+             response *)
+          let s1 := set_clean (set_ka (set_interim (set_back s PTerminated false true OBackend) NoInterim) false) true in
+          let '(s2, c2, e2) := back_lost T redir s1 c in
+          (s2, c2, EvInterim :: e2)
         | I103 =>
           match s_state s with
           | SLinked => (set_interim (set_back s PStatusLine false false ONone) NoInterim, set_arm c false (c_ev_w c), [EvInterim])
@@ -626,7 +657,7 @@ Definition step2 (T : tables) (redir : option N) (s1 s2 : stream) (k : conn2) (l
     client's own inputs and the frontend write pass / frontend timer *)
 Definition backend_side (i : input) : bool :=
   match i with
-  | IConnect _ | IReqSent | IBack1xx _ | IBack101 | IBackPartial | IBackHead | IBackEnd | IBackNoKeepAlive
+  | IConnect _ | IReqSent | IBack1xx _ | IBackBurst _ | IBack101 | IBackPartial | IBackHead | IBackEnd | IBackNoKeepAlive
   | IBackClose | IBackGarbage | IBackTimeout => true
   | _ => false
   end.
